@@ -718,7 +718,6 @@ def _clone_type(type_: NamedType) -> NamedType:
 def _clone_directive(directive: Directive) -> Directive:
     cloned = copy.copy(directive)
     cloned.arguments = [copy.copy(a) for a in directive.arguments]
-    cloned.argument_map = {a.name: a for a in cloned.arguments}
     return cloned
 
 
